@@ -17,6 +17,7 @@ import Driver.C17
 import Driver.C20
 import Driver.C08
 import Driver.C15
+import Driver.C12
 open Lean
 
 def dispatch (prop : String) (j : Json) : Except String Json :=
@@ -40,6 +41,7 @@ def dispatch (prop : String) (j : Json) : Except String Json :=
   | "C20" => Driver.C20.handle j
   | "C08" => Driver.C08.handle j
   | "C15" => Driver.C15.handle j
+  | "C12" => Driver.C12.handle j
   | _ => .error s!"unknown property {prop}"
 
 partial def loop (h : IO.FS.Stream) (out : IO.FS.Stream) : IO Unit := do
